@@ -7,6 +7,7 @@ import (
 	"io"
 	"os"
 	"os/exec"
+	"path/filepath"
 	"strings"
 	"time"
 
@@ -219,6 +220,88 @@ func steps(thorough bool) []step {
 		f, err := rw.Sniff(bytes.NewReader(buf.Bytes()))
 		if err != nil || f != formats.CDX13JSON {
 			return fmt.Sprintf("per-call override asked for %s but the output is detected as (%q,%v)", formats.CDX13JSON, f, err)
+		}
+		return ""
+	}})
+	// per-call options that belong to someone else: the first writer's Options object, and a shared value used with two writers
+	out = append(out, step{"last-writer.WriteFileWithOptions(first-writer.Options)", func(w *world) string {
+		if len(w.ws) < 2 {
+			return ""
+		}
+		first, last := w.ws[0], w.ws[len(w.ws)-1]
+		f := filepath.Join(os.Getenv("MCVERIF_SCRATCH"), fmt.Sprintf("c18-%d.out", os.Getpid()))
+		defer os.Remove(f)
+		_ = last.w.WriteFileWithOptions(testDoc(), f, first.w.Options) // may fail when neither has a format; configuration must stay put either way
+		return ""
+	}})
+	out = append(out, step{"all-writers.WriteFileWithOptions(one shared per-call value without format)", func(w *world) string {
+		if len(w.ws) == 0 {
+			return ""
+		}
+		shared := &writer.Options{RenderOptions: &native.RenderOptions{Indent: 3}, SerializeOptions: &native.SerializeOptions{}}
+		for k, i := range w.ws {
+			f := filepath.Join(os.Getenv("MCVERIF_SCRATCH"), fmt.Sprintf("c18-%d-%d.out", os.Getpid(), k))
+			err := i.w.WriteFileWithOptions(testDoc(), f, shared)
+			b, _ := os.ReadFile(f)
+			os.Remove(f)
+			if shared.Format != "" {
+				return fmt.Sprintf("WriteFileWithOptions wrote format %q into the per-call options value it was handed", shared.Format)
+			}
+			if i.want.Format == "" {
+				if err == nil {
+					return fmt.Sprintf("writer #%d has no format and the per-call options name none, yet the write succeeded", k)
+				}
+				continue
+			}
+			if err != nil {
+				return fmt.Sprintf("writer #%d: WriteFileWithOptions failed: %v", k, err)
+			}
+			if got, serr := rw.Sniff(bytes.NewReader(b)); serr != nil || got != i.want.Format {
+				return fmt.Sprintf("writer #%d (format %q) wrote (%q,%v) through a per-call options value without format", k, i.want.Format, got, serr)
+			}
+		}
+		return ""
+	}})
+	out = append(out, step{"last-writer.WriteFile", func(w *world) string {
+		if len(w.ws) == 0 {
+			return ""
+		}
+		i := w.ws[len(w.ws)-1]
+		f := filepath.Join(os.Getenv("MCVERIF_SCRATCH"), fmt.Sprintf("c18-%d.wf", os.Getpid()))
+		defer os.Remove(f)
+		err := i.w.WriteFile(testDoc(), f)
+		if i.want.Format == "" {
+			if err == nil {
+				return "a writer constructed without format wrote a file successfully (format leaked from elsewhere)"
+			}
+			return ""
+		}
+		if err != nil {
+			return "WriteFile with the instance's format failed: " + err.Error()
+		}
+		b, _ := os.ReadFile(f)
+		if got, serr := rw.Sniff(bytes.NewReader(b)); serr != nil || got != i.want.Format {
+			return fmt.Sprintf("WriteFile used (%q,%v), the instance was constructed with %q", got, serr, i.want.Format)
+		}
+		return ""
+	}})
+	out = append(out, step{"last-reader.ParseFileWithOptions(first-reader.Options)", func(w *world) string {
+		if len(w.rs) < 2 {
+			return ""
+		}
+		first, last := w.rs[0], w.rs[len(w.rs)-1]
+		b, err := rw.Write(testDoc(), formats.CDX15JSON, 0)
+		if err != nil {
+			return "harness: " + err.Error()
+		}
+		f := filepath.Join(os.Getenv("MCVERIF_SCRATCH"), fmt.Sprintf("c18-%d.in", os.Getpid()))
+		_ = os.WriteFile(f, b, 0o644)
+		defer os.Remove(f)
+		if _, err := last.r.ParseFileWithOptions(f, first.r.Options); err != nil {
+			return "ParseFileWithOptions failed: " + err.Error()
+		}
+		if _, err := last.r.ParseFile(f); err != nil {
+			return "ParseFile failed: " + err.Error()
 		}
 		return ""
 	}})
